@@ -771,6 +771,26 @@ func c18Child(a *ChildArgs) {
 			}
 			c18CheckSession(a, s, "headers", true)
 		}
+		// many unusable headers spread over one session: each costs the message it belongs to and nothing else
+		if a.Shard == 0 {
+			r := rand.New(rand.NewSource(base + 4242))
+			rec := []int{0, 2, 3, 4, 5}
+			for _, rounds := range []int{6, 12, 25} {
+				s := &c18Session{docs: map[string]*c18Doc{}}
+				idn := 0
+				s.open(c18URIs[0], c18Texts[r.Intn(len(c18Texts))], 1)
+				for k := 0; k < rounds; k++ {
+					f := faults[rec[k%len(rec)]]
+					s.add(c18Step{Kind: "header-fault", Label: f.name, Bytes: []byte(f.raw)})
+					for j := 0; j < 2; j++ {
+						st := c18Request(r, &idn, s.docs)
+						st.Label += fmt.Sprintf("@after-%d-faults", k+1)
+						s.add(st)
+					}
+				}
+				c18CheckSession(a, s, "headers-many", true)
+			}
+		}
 	}
 }
 
@@ -819,6 +839,17 @@ func c18Diagnostics(a *ChildArgs, r *rand.Rand) {
 	// a save after the change (without text, or carrying the same text) re-validates: what is published last must
 	// still be the diagnostics of the mirrored text at the document's version
 	saveKind := r.Intn(3)
+	// a change notification that only moves the version on (no content changes), as editors send it
+	if r.Intn(3) == 0 {
+		ver += 1 + r.Intn(3)
+		s.add(c18Step{Kind: "notification", Label: "textDocument/didChange:version-only", Bytes: lspNotif("textDocument/didChange", map[string]interface{}{"textDocument": map[string]interface{}{"uri": uri, "version": ver}, "contentChanges": []interface{}{}})})
+		if d, ok := s.docs[uri]; ok {
+			d.version = ver
+		}
+		if saveKind == 0 {
+			saveKind = 1
+		}
+	}
 	switch saveKind {
 	case 1:
 		s.add(c18Step{Kind: "notification", Label: "textDocument/didSave", Bytes: lspNotif("textDocument/didSave", map[string]interface{}{"textDocument": map[string]interface{}{"uri": uri}})})
